@@ -25,6 +25,33 @@ type SymbolTable struct {
 }
 
 // NewChild creates a new symbol table that is a child of the current table.
+// symbolTableMark records how many symbols and child tables a table had.
+type symbolTableMark struct {
+	symbols  int
+	children int
+	free     int
+}
+
+func (t *SymbolTable) mark() symbolTableMark {
+	return symbolTableMark{symbols: len(t.symbols), children: len(t.children), free: len(t.free)}
+}
+
+// rollback removes the symbols and child tables added since the mark.
+func (t *SymbolTable) rollback(m symbolTableMark) {
+	for _, s := range t.symbols[m.symbols:] {
+		// Symbols of nested blocks are stored here too but are named there
+		if t.symbolsByName[s.name] == s {
+			delete(t.symbolsByName, s.name)
+		}
+	}
+	t.symbols = t.symbols[:m.symbols]
+	t.children = t.children[:m.children]
+	for _, rs := range t.free[m.free:] {
+		delete(t.freeByName, rs.symbol.name)
+	}
+	t.free = t.free[:m.free]
+}
+
 func (t *SymbolTable) NewChild() *SymbolTable {
 	child := &SymbolTable{
 		id:            fmt.Sprintf("%s.%d", t.ID(), len(t.children)),
